@@ -141,6 +141,38 @@ CLAIMED["C09"] = dict(
     technique="deterministic simulation: stop/restart fault injection (simulated clock, signal, stop file) with bitwise history comparison",
     engine="E-RHD", design_ref="6/C09")
 
+CLAIMED["C12"] = dict(
+    level="exploration",
+    text="Whole task-based ionization and RHD runs from generated parameter files (run modes and optional "
+         "components widened: writers, initial snapshot, temperature calculation, trackers, task plot; radiation "
+         "in RHD, radiative cooling, external gravity, hydro mask, turbulence forcing, live output with all "
+         "calculator combinations, restart dumps and a stop + restart) built with AddressSanitizer + "
+         "UndefinedBehaviorSanitizer and executed inside the simulator, so that which slot/buffer/task is reused by "
+         "whom is decided by seeded schedules; stack and heap pre-filled with 0xA5 so that uninitialised reads are "
+         "hostile and reproducible; plus a heap-perturbation part (same case twice with malloc fill 0x00 / 0xA5 must "
+         "give identical snapshots and event log). Oracle: normal return, no sanitizer report / signal / abort, "
+         "outputs exist.",
+    note="MemorySanitizer cannot be used with the uninstrumented libstdc++/libhdf5; uninitialised-memory decisions "
+         "are covered through hostile fill + behavioural comparison only. The legacy (non task-based), dust and "
+         "emission modes are not simulated. One known finding (cooling table lookup with NaN temperature) is listed "
+         "in known_findings.json.",
+    technique="deterministic simulation under ASan/UBSan with seeded schedules, hostile memory fill and heap perturbation",
+    engine="E-ION + E-RHD (asan variant)", design_ref="6/C12")
+CLAIMED["C13"] = dict(
+    level="exploration",
+    text="Two parts. (1) Run-to-run identity: the same generated photoionization problem (one thread) is executed "
+         "twice inside the simulator while everything the simulator owns that is not seed or input is varied "
+         "(rdtsc values, heap fill and layout, and in class-B pairs the simulated wall clock incl. jumps); AsciiFile "
+         "snapshots must be byte-identical, Gadget/HDF5 snapshots byte-identical with the same simulated clock and "
+         "identical up to the creation-time attribute / HDF5 object times (<= 64 bytes) with another clock. "
+         "(2) RandomGenerator as a stateful component: histories of draw / integer draw / save / restore (latest "
+         "or stale dump) / reseed; every value compared bit for bit with GSL's gsl_rng_ranlxd2 and with an "
+         "integer-arithmetic reference, values in [0,1), dumps read back and written again byte-identically.",
+    note="'exactly the RANLUX (ranlxd2) sequence' = GSL's gsl_rng_ranlxd2 stream for seeds 0..2^31-1; the wall "
+         "clock is an input of the Gadget writer by design (class A/B split stated in DESIGN.md)",
+    technique="deterministic simulation: paired executions under varied simulator-owned nondeterminism; save/restore fault histories against reference generators",
+    engine="E-ION + E-RNG", design_ref="6/C13")
+
 PENDING = {}
 
 
@@ -199,9 +231,11 @@ def main():
              "kind_free_text": "TimeLine driven by request histories with save/restore faults"},
             {"name": "E-FS", "path": "engines/efs.cpp", "serves_properties": ["C14"],
              "kind_free_text": "restart dump rotation in forked children with process death at numbered file-system operations"},
-            {"name": "E-RHD", "path": "engines/erhd.cpp", "serves_properties": ["C04", "C07", "C09", "C10"],
+            {"name": "E-RHD", "path": "engines/erhd.cpp", "serves_properties": ["C04", "C07", "C09", "C10", "C12"],
              "kind_free_text": "whole TaskBasedRadiationHydrodynamicsSimulation::do_simulation runs inside the simulator"},
-            {"name": "E-ION", "path": "engines/eion.cpp", "serves_properties": ["C01", "C03"],
+            {"name": "E-RNG", "path": "engines/erng.cpp", "serves_properties": ["C13"],
+             "kind_free_text": "RandomGenerator under draw/save/restore/reseed histories against GSL ranlxd2"},
+            {"name": "E-ION", "path": "engines/eion.cpp", "serves_properties": ["C01", "C03", "C12", "C13"],
              "kind_free_text": "whole TaskBasedIonizationSimulation runs from generated parameter files inside the simulator"},
         ],
         "checks": checks,
